@@ -21,7 +21,9 @@ def surrogate_g(log_time, h, r_b, b_spacing, n, strength=1.0):
         # smooth minimum of the infinite-line-source growth and the steady state
         m = min(g_ils, g_ss)
         g1 = m - math.log(math.exp(-s * (g_ils - m)) + math.exp(-s * (g_ss - m))) / s
-        ramp = 1.0 / (1.0 + math.exp(-(x + 1.5) / 1.2))
+        # borehole-to-borehole interaction: exactly zero at short times (x <= -6) so that the family joins the
+        # short-time response of a single borehole the way a real long-time g-function does
+        ramp = math.tanh(max(0.0, x + 6.0) / 3.5) ** 2
         coupling = max(0.05, min(1.5, h / (4.0 * max(b_spacing, r_b))))
         inter = (n ** 0.75 - 1.0) * 0.9 * coupling * ramp * strength
         out.append(g1 + inter)
